@@ -8,6 +8,40 @@ COMMON = ["the harness module replaces github.com/openconfig/gnmi with /repo's w
           "rapid v1.3.0 generators; every random choice is a function of VERIF_SEED"]
 
 CHECKS = {
+    "C06": dict(
+        engine="matchprop",
+        technique=("exhaustive small-scope enumeration of the (subscription path, update path) relation and of ctree.Query containment, "
+                   "plus model-based property testing (rapid) of subscribe/unsubscribe/update sequences on match.Match and on the real subscribe.Server (synctest)"),
+        level_text=("All 14 641 pairs (subscription path, update path) of length 0-4 over {a,b,*} are presented through Match.Update and through "
+                    "subscribe.UpdateNotification with every split into prefix strings + entry path (update and delete entries), with two clients at the path and "
+                    "removal once and twice: invoked iff compatible. All 2 197 triples (two registrations of one client + one path, length 0-2) check exactly-once for "
+                    "1- and 2-entry notifications. For 678 trees of glob-free leaves (every single leaf of depth 1-4 over {a,b}, every prefix-free set of depth<=2, "
+                    "every combination of 5 shapes under the four depth-2 nodes) x 121 queries, every leaf ctree.Query reports is offered to a subscriber registered "
+                    "at the query (real code on both sides, no model). Tens of thousands of random sequences by up to 4 clients (AddQuery incl. duplicates, server-shaped "
+                    "registrations, remove incl. repeated, Match.Update, UpdateNotification with 1-4 update/delete entries, keyed elements, deprecated element encoding) "
+                    "are compared call by call with a set-of-registrations model; thousands of sequences of Subscribe RPCs / RPC ends / Server.Update on the real "
+                    "subscribe.Server count offers per subscriber (responses + coalesced duplicates) and compare the subscription trie with the live subscriptions "
+                    "after every step. Bounded exploration: exhaustive only inside the stated small scope."),
+        level_note=("trusts the 10-line compatibility relation taken from the property statement, the harness's restatement of path.ToStrings (decided by C19) and of "
+                    "the registration path rule (prefix target, origin, prefix elements, path elements); the match-level part re-implements the unexported "
+                    "subscribe.addSubscription only as a generator of server-shaped registrations, the real one is exercised by the server part through "
+                    "Server.Subscribe; a registration that outlives its RPC is unobservable through exported API (closed queue swallows the insert), so the server "
+                    "part reads the unexported trie Server.m.tree by reflection, read-only, at quiescence; the state 'one of two handles for the same (client, path) "
+                    "removed' is a don't-care (the property is silent, the server never produces it); single-goroutine use of match.Match (no concurrency)"),
+        rule=("exhaustive: cases are pairs (q, p) / triples (q1, q2, p) / (tree, query); non-trivial = the pair contains a glob on at least one side and both paths are "
+              "non-empty (triples: two distinct registered paths both compatible; containment: a reported leaf reached through a glob or a shorter query); distinct = the pair "
+              "(triple, tree+query). random/server: cases are operation sequences; non-trivial = some notification/update call sees >=1 compatible and >=1 incompatible "
+              "live registration and a client with >=2 compatible registrations; distinct = distinct hash of the scenario"),
+        assumptions=COMMON + [SYNCTEST_ASSUMPTION,
+                              "path elements and key values are non-empty strings over {a,b,*}; '*' as an element or key value is the wildcard on either side",
+                              "SubscriptionLists obey the gNMI origin rules (origin in the prefix or in the paths, not both; no prefix elements with a path origin)",
+                              "server part: STREAM subscriptions on an empty cache with targets a,b; the target-delete notification (sole delete of '*' without origin, which closes single-target streams) is not generated"],
+        parts=[
+            dict(name="exhaustive", run="TestC06Exhaustive", rapid=False),
+            dict(name="random", run="TestC06Random", checks=dict(quick=20000, thorough=100000), shards=dict(quick=1, thorough=8)),
+            dict(name="server", run="TestC06Server", checks=dict(quick=4000, thorough=20000), shards=dict(quick=1, thorough=8)),
+        ],
+    ),
     "C17": dict(
         engine="targetprop",
         technique="model-based property testing (rapid): generated sequences of configuration loads against a plain-data reference model, with replay of the recorded handler calls",
